@@ -482,13 +482,20 @@ def _stable_argsort(vals):
 
 @implements(np.argsort)
 def _argsort(a, axis=-1, kind=None, **kw):
-    r = _along(lambda v: np.array(_stable_argsort(v), dtype=object), a, axis)
-    if isinstance(r, np.ndarray) and r.dtype == object and r.ndim:
-        r = np.array(r.tolist(), dtype=np.intp)
-        if axis not in (-1, None) and r.ndim > 1:
-            r = np.moveaxis(r, -1, axis)
-        return r
-    return np.array(r, dtype=np.intp)
+    a = np.asarray(_obj(a), dtype=object)
+    if a.ndim == 0:
+        return np.array([0], dtype=np.intp)
+    if axis is None:
+        a = a.ravel()
+        axis = -1
+    if a.ndim == 1:
+        return np.array(_stable_argsort(list(a)), dtype=np.intp)
+    axis = axis % a.ndim
+    moved = np.moveaxis(a, axis, -1)
+    out = np.empty(moved.shape, dtype=np.intp)
+    for ix in np.ndindex(moved.shape[:-1]):
+        out[ix] = _stable_argsort(list(moved[ix]))
+    return np.moveaxis(out, -1, axis)
 
 
 @implements(np.sort)
